@@ -41,4 +41,12 @@ CHECKS = {
         "note": TLCNOTE + "Exact decision on lattices N<=8 and images; distance accuracy decided to 2^-7 of the lattice unit (not ulps).",
         "technique": "TLA+ exact intersects/squared-distance oracle; TLC trace validation of recorded calls",
     },
+    "C13": {
+        "text": "Hull.tla defines the convex hull (extreme points; strict convexity, covering, vertices are control points) and the "
+                "monotone-chain stack machine; TLC proves machine = definition on all point sets of a 4x4 lattice up to the bound, and "
+                "validates every recorded ConvexHull / hull-of-hull / permuted-multiset hull / rotated minimum area and width rectangle "
+                "of the real library against the definition and the exact rational minimum over hull edges.",
+        "note": TLCNOTE + "Hull exact on N<=16, rectangles on N<=8 (corners to 3/256 unit, metric to ~1%).",
+        "technique": "TLA+ hull definition + monotone-chain reference machine (TLC exhaustive) + TLC trace validation of recorded hulls/rectangles",
+    },
 }
